@@ -11,6 +11,7 @@ package keystore
 
 import (
 	"context"
+	"errors"
 	"fmt"
 	"sort"
 	"strings"
@@ -845,7 +846,8 @@ type ksIlSc struct {
 	Reset      []int   `json:"reset"` // >= 1 key
 	Puts       [][]int `json:"puts"`  // concurrent Put calls (each 1-2 keys), started only after the first reset key was consumed
 	Schedule   []int   `json:"schedule"`
-	CancelAt   int     `json:"cancel_at"` // >0: cancel the reset's context at that step
+	CancelAt   int     `json:"cancel_at"`              // >0: cancel the reset's context at that step
+	Second     bool    `json:"second_reset,omitempty"` // a second ResetCids (same keys) may be started while the first one runs; it has to be refused
 }
 
 type gateReq struct {
@@ -866,6 +868,8 @@ func runKSInterleave(t *testing.T, s ksIlSc) (res verifsim.Result) {
 		startT int
 	}
 	var puts []*putRec
+	secondStarted, secondDone, secondRan := false, false, false
+	var secondErr error
 	resetDone := false
 	cancelFired := false // the reset's context was cancelled before ResetCids returned
 	var resetErr error
@@ -941,6 +945,7 @@ func runKSInterleave(t *testing.T, s ksIlSc) (res verifsim.Result) {
 			}
 			close(keysCh)
 		}()
+		second := make(chan error, 1)
 		var parked []gateReq
 		nextPut := 0
 		putDone := make(chan int, len(s.Puts))
@@ -958,11 +963,14 @@ func runKSInterleave(t *testing.T, s ksIlSc) (res verifsim.Result) {
 					running--
 				case err := <-resetC:
 					resetDone, resetErr = true, err
+				case err := <-second:
+					secondDone, secondErr = true, err
+					secondRan = err == nil
 				default:
 					break drain
 				}
 			}
-			if resetDone && nextPut >= len(s.Puts) && running == 0 && len(parked) == 0 {
+			if resetDone && nextPut >= len(s.Puts) && running == 0 && len(parked) == 0 && (!secondStarted || secondDone) {
 				break
 			}
 			if s.CancelAt > 0 && step == s.CancelAt {
@@ -985,6 +993,9 @@ func runKSInterleave(t *testing.T, s ksIlSc) (res verifsim.Result) {
 			}
 			if nextPut < len(s.Puts) && (fed >= 1 || resetDone) {
 				acts = append(acts, action{"put", 0})
+			}
+			if s.Second && !secondStarted && !resetDone && fed >= 1 {
+				acts = append(acts, action{"reset2", 0})
 			}
 			if len(acts) == 0 {
 				// nothing to choose: let virtual time pass (phase A ticker, back-pressure waits)
@@ -1010,6 +1021,15 @@ func runKSInterleave(t *testing.T, s ksIlSc) (res verifsim.Result) {
 					// the feeder is still handing over the previous key: let time pass
 					time.Sleep(time.Millisecond)
 				}
+			case "reset2":
+				secondStarted = true
+				ks := mhsOf(resolveKeys(s.Reset))
+				ch2 := make(chan cid.Cid, len(ks))
+				for _, h := range ks {
+					ch2 <- cid.NewCidV1(cid.Raw, h)
+				}
+				close(ch2)
+				go func() { second <- rk.ResetCids(ctx, ch2) }()
 			case "put":
 				p := &putRec{keys: resolveKeys(s.Puts[nextPut]), ackT: -1, startT: st.clock.Now()}
 				puts = append(puts, p)
@@ -1047,6 +1067,18 @@ func runKSInterleave(t *testing.T, s ksIlSc) (res verifsim.Result) {
 				return
 			}
 		}
+		if secondStarted && !secondDone {
+			select {
+			case secondErr = <-second:
+				secondDone, secondRan = true, secondErr == nil
+			case <-time.After(10 * time.Minute):
+				res.Fail("reset-returns", "C20/interleave/second-reset-hangs", "the second ResetCids call did not return")
+				return
+			}
+		}
+		if secondStarted && secondErr != nil && !errors.Is(secondErr, ErrResetInProgress) && !errors.Is(secondErr, context.Canceled) {
+			res.Fail("second-reset-refused", "C20/interleave/second-reset-error", "the second ResetCids call returned %v", secondErr)
+		}
 		time.Sleep(time.Second)
 		verifsim.Quiesce()
 		// ---- final contents
@@ -1063,6 +1095,15 @@ func runKSInterleave(t *testing.T, s ksIlSc) (res verifsim.Result) {
 				return false
 			}
 			gs := setOf(got)
+			if secondRan {
+				// the second call was not refused: it came to run as a reset of its own after the first one had finished, which
+				// legitimately drops keys put between the two; only the size clause is kept for such a case
+				if size != len(got) {
+					res.Fail("size", "C20/interleave/size", "%s: Size %d but %d keys stored (after two resets)", when, size, len(got))
+					return false
+				}
+				return true
+			}
 			for _, m := range must {
 				if !gs[m] {
 					res.Fail("acked-puts-kept", "C20/interleave/acked-put-lost", "%s: key %d whose Put was acknowledged during the reset is missing (reset err %v); contents %v, old %v, new %v, puts %v", when, m, resetErr, got, old, nw, must)
@@ -1114,6 +1155,9 @@ func runKSInterleave(t *testing.T, s ksIlSc) (res verifsim.Result) {
 		rk.Close()
 		closed = true
 		// ---- crash enumeration over this (schedule-dependent) history
+		if secondRan {
+			return // two resets ran one after the other: the crash oracle below is written for one
+		}
 		allPut := map[int]bool{}
 		for _, p := range puts {
 			for _, x := range p.keys {
@@ -1230,7 +1274,7 @@ func runKSInterleave(t *testing.T, s ksIlSc) (res verifsim.Result) {
 func TestVerif_C20_ResetInterleave(t *testing.T) {
 	verifsim.RunCheck(t, verifsim.Check[ksIlSc]{
 		Property: "C20", Part: "reset-interleave",
-		Rule: "rapid: ResettableKeystore (shared/factory, prefixBits 0/8/16, batch size 1-3, reset buffer capacity 1-4) with 0-4 initial keys, a reset of 1-6 keys fed one by one, and 0-4 concurrent Put calls; EVERY datastore call of every goroutine is a " +
+		Rule: "rapid: ResettableKeystore (shared/factory, prefixBits 0/8/16, batch size 1-3, reset buffer capacity 1-4) with 0-4 initial keys, a reset of 1-6 keys fed one by one, and 0-4 concurrent Put calls, optionally a second ResetCids call started while the first one runs (it has to be refused and to leave the running reset alone); EVERY datastore call of every goroutine is a " +
 			"yield point, feeding the next reset key and starting the next Put are steps too, and a drawn choice list decides which step happens next (quiescence by synctest.Wait, virtual time for the phase-A ticker and back-pressure); optional cancellation at a drawn step; " +
 			"oracle: ResetCids returns, afterwards and after a clean restart the contents are exactly new∪(acknowledged concurrent puts) (or old∪puts if the reset failed), never a mixture, no acknowledged put lost, Size equals the count; non-trivial = a Put was started while the reset was running",
 		Gen: func(t *rapid.T) ksIlSc {
@@ -1247,6 +1291,7 @@ func TestVerif_C20_ResetInterleave(t *testing.T) {
 			if rapid.IntRange(0, 5).Draw(t, "cancel") == 0 {
 				s.CancelAt = rapid.IntRange(1, 60).Draw(t, "cancelAt")
 			}
+			s.Second = rapid.IntRange(0, 2).Draw(t, "second") == 0
 			return s
 		},
 		Run: func(t *testing.T, s ksIlSc) verifsim.Result { return runKSInterleave(t, s) },
